@@ -26,10 +26,12 @@ import (
 	cryptocli "github.com/33cn/chain33/common/crypto/client"
 	clog "github.com/33cn/chain33/common/log"
 	"github.com/33cn/chain33/queue"
-	_ "github.com/33cn/chain33/system/address"     // btc, btcMultiSign, utxo, eth address drivers
-	_ "github.com/33cn/chain33/system/crypto/init" // signature drivers
+	_ "github.com/33cn/chain33/system/address"          // btc, btcMultiSign, utxo, eth address drivers
+	_ "github.com/33cn/chain33/system/crypto/btcscript" // a node links this driver through rpc/client
+	_ "github.com/33cn/chain33/system/crypto/init"      // signature drivers
 	dapp "github.com/33cn/chain33/system/dapp"
 	_ "github.com/33cn/chain33/system/dapp/init" // system executors (executor addresses, per-executor sign types, forks)
+	nty "github.com/33cn/chain33/system/dapp/none/types"
 	"github.com/33cn/chain33/types"
 )
 
@@ -37,6 +39,33 @@ type cfgT struct {
 	AddrEnable   map[string]int64 `json:"addrEnable"`   // [address.enableHeight]
 	CryptoEnable map[string]int64 `json:"cryptoEnable"` // [crypto.enableHeight]
 	Forks        map[string]int64 `json:"forks"`        // [fork.system]
+	// chain state the btcscript driver reads through the node API: delayed transactions committed to the none
+	// executor (tx hash hex -> begin height / begin timestamp), what none's Query_GetDelayTxInfo serves
+	DelayTxs map[string]delayT `json:"delayTxs"`
+}
+
+type delayT struct {
+	Height int64 `json:"h"`
+	Time   int64 `json:"t"`
+}
+
+// stateAPI is the node API with the one state query the signature drivers make answered from the configured table
+// (a real node answers it from the state DB; there is no executor/store in this helper).
+type stateAPI struct {
+	client.QueueProtocolAPI
+	delay map[string]delayT
+}
+
+func (a *stateAPI) Query(driver, funcname string, param types.Message) (types.Message, error) {
+	if driver == nty.NoneX && funcname == nty.QueryGetDelayTxInfo {
+		req, _ := param.(*types.ReqBytes)
+		d, ok := a.delay[hex.EncodeToString(req.GetData())]
+		if !ok {
+			return nil, types.ErrGetStateDB
+		}
+		return &nty.CommitDelayTxLog{DelayTxHash: hex.EncodeToString(req.GetData()), DelayBeginHeight: d.Height, DelayBeginTimestamp: d.Time}, nil
+	}
+	return nil, types.ErrNotSupport
 }
 
 type queryT struct {
@@ -148,7 +177,12 @@ func answer(cfg *types.Chain33Config, q queryT) (out string) {
 	case "txFrom":
 		cryptocli.SetCurrentBlock(q.H, 0)
 		return decodeTx(q.In).From()
-	case "checkSign":
+	case "checkSign": // a transaction of block q.H is checked while the node's current block is q.H-1 (block time 10 s per block)
+		cur := q.H - 1
+		if cur < 0 {
+			cur = 0
+		}
+		cryptocli.SetCurrentBlock(cur, cur*10)
 		return strconv.FormatBool(decodeTx(q.In).CheckSign(q.H))
 	}
 	fail("unknown fn " + q.Fn)
@@ -171,7 +205,7 @@ func main() {
 	if err != nil {
 		fail("queue api: " + err.Error())
 	}
-	cryptocli.SetQueueAPI(api) // what the crypto module's SetQueueClient does (without its background goroutine)
+	cryptocli.SetQueueAPI(&stateAPI{QueueProtocolAPI: api, delay: in.Cfg.DelayTxs}) // what the crypto module's SetQueueClient does (without its background goroutine)
 	answers := make([]string, len(in.Queries))
 	for i, qu := range in.Queries {
 		answers[i] = answer(cfg, qu)
